@@ -3,7 +3,7 @@ From LV Require Import Lib.Bytes Lib.Decimal Lib.Prelude Model.C17.
 Extraction Language OCaml.
 Extraction "c17_model.ml"
   prelude_byte_of_N prelude_N_of_byte prelude_Z_of_N prelude_Z_opp prelude_nat_of_N prelude_N_of_nat
-  py_int_of_bytes utf8_valid bdec bdecode decode_datagram benc enc_defined ref_benc
+  py_int_of_bytes utf8_valid bdecode decode_datagram benc enc_defined ref_benc
   value_of_message encode_message raw_of_message contacts_val peers_val dict_of_items
   make_compact_ip make_compact_address decode_compact_address
   probe_receive probe_failures probe_processed.
